@@ -8,23 +8,68 @@ import (
 	"strings"
 )
 
+func usage() {
+	fmt.Fprintln(os.Stderr, `usage:
+  gocv dev      [-func substr] [-dump]            verify functions, print obligations (development)
+  gocv check    -prop Cnn [-tier quick|thorough]  decide one property, write evidence, exit 0/1
+  gocv baseline                                    rewrite /verif/baseline/obligations.json (maintainer command)
+  gocv list                                        list contracts and their property tags`)
+	os.Exit(2)
+}
+
+type Config struct {
+	Repo, Specs, Verif string
+}
+
 func main() {
-	repo := flag.String("repo", "/repo", "repository root")
-	specs := flag.String("specs", "/verif/specs", "directory with assumed contracts (*.spec)")
-	fnFilter := flag.String("func", "", "verify only functions whose key contains this text")
-	dump := flag.Bool("dump", false, "dump queries of failed obligations")
-	budget := flag.Int("budget", 10, "per-solver time limit (s) for the long attempts")
-	flag.Parse()
+	if len(os.Args) < 2 {
+		usage()
+	}
+	cmd := os.Args[1]
+	fs := flag.NewFlagSet(cmd, flag.ExitOnError)
+	repo := fs.String("repo", "/repo", "repository root")
+	verif := fs.String("verif", "/verif", "verification root")
+	fnFilter := fs.String("func", "", "only functions whose key contains this text")
+	dump := fs.Bool("dump", false, "dump queries of undischarged obligations")
+	budget := fs.Int("budget", 10, "per-solver time limit (s) for the long attempts")
+	prop := fs.String("prop", "", "property id")
+	tier := fs.String("tier", "quick", "quick|thorough")
+	replay := fs.String("replay", "", "replay file to re-run")
+	fs.Parse(os.Args[2:])
+	cfg := Config{Repo: *repo, Specs: *verif + "/specs", Verif: *verif}
 	initScratch()
-	defer cleanupScratch()
-	p, err := loadProgram(*repo, *specs)
+	code := 0
+	func() {
+		defer cleanupScratch()
+		switch cmd {
+		case "dev":
+			code = cmdDev(cfg, *fnFilter, *dump, *budget)
+		case "check":
+			if *replay != "" {
+				code = cmdReplay(cfg, *prop, *replay)
+			} else {
+				code = cmdCheck(cfg, *prop, *tier)
+			}
+		case "baseline":
+			code = cmdBaseline(cfg)
+		case "list":
+			code = cmdList(cfg)
+		default:
+			usage()
+		}
+	}()
+	os.Exit(code)
+}
+
+func cmdDev(cfg Config, fnFilter string, dump bool, budget int) int {
+	p, err := loadProgram(cfg.Repo, cfg.Specs)
 	if err != nil {
 		fmt.Fprintln(os.Stderr, "load:", err)
-		os.Exit(2)
+		return 2
 	}
 	var keys []string
 	for k, c := range p.cs.Funcs {
-		if c.Kind == "func" && !c.Inline && c.Trusted == "" && strings.Contains(k, *fnFilter) {
+		if c.Kind == "func" && !c.Inline && c.Trusted == "" && strings.Contains(k, fnFilter) {
 			keys = append(keys, k)
 		}
 	}
@@ -36,18 +81,22 @@ func main() {
 			continue
 		}
 		rep := p.verifyFunction(fn, p.cs.Funcs[k])
-		p.discharge(rep, *budget, 16)
+		p.discharge(rep, budget, 16)
 		fmt.Printf("== %s: paths=%d returns=%d obligations=%d trivial=%d aborted=%q\n", k, rep.Paths, rep.Returns, len(rep.Obls), rep.Trivial, rep.Aborted)
 		for _, n := range rep.Notes {
 			fmt.Println("   note:", n)
 		}
 		agg := map[string]string{}
+		ms := map[string]int64{}
 		for _, ob := range rep.Obls {
 			prev, ok := agg[ob.Name]
 			if !ok || prev == "unsat" {
 				agg[ob.Name] = ob.status
 			}
-			if ob.status != "unsat" && *dump {
+			if ob.result.Ms > ms[ob.Name] {
+				ms[ob.Name] = ob.result.Ms
+			}
+			if ob.status != "unsat" && dump {
 				fmt.Printf("---- %s [%s]\n%s\n%s\n", ob.Name, ob.status, rep.exec.buildQuery(ob.node), ob.result.Raw)
 			}
 		}
@@ -57,7 +106,39 @@ func main() {
 		}
 		sort.Strings(names)
 		for _, n := range names {
-			fmt.Printf("   %-8s %s\n", agg[n], n)
+			fmt.Printf("   %-8s %6dms %s\n", agg[n], ms[n], n)
 		}
 	}
+	return 0
+}
+
+func cmdList(cfg Config) int {
+	cs, err := loadContracts(cfg.Repo, cfg.Specs)
+	if err != nil {
+		fmt.Fprintln(os.Stderr, err)
+		return 2
+	}
+	var keys []string
+	for k := range cs.Funcs {
+		keys = append(keys, k)
+	}
+	sort.Strings(keys)
+	for _, k := range keys {
+		c := cs.Funcs[k]
+		tags := map[string]bool{}
+		for _, cls := range [][]*Clause{c.Requires, c.Ensures, c.Invs, c.Asserts} {
+			for _, cl := range cls {
+				for _, t := range cl.Tags {
+					tags[t] = true
+				}
+			}
+		}
+		var ts []string
+		for t := range tags {
+			ts = append(ts, t)
+		}
+		sort.Strings(ts)
+		fmt.Printf("%-9s %-70s %s %s\n", c.Kind, k, strings.Join(ts, ","), c.Trusted)
+	}
+	return 0
 }
